@@ -410,6 +410,9 @@ def configs(tier):
                     add("axi-" + bt + "-faults-D1-r1-4", dw, param((1, 2, 4), reg, bases=bs), 1, "all", 4.0 * w, port="axi")
                     add("axi-" + bt + "-timing-free-r1-4", dw, param((1, 2, 4), reg, bases=bs), None, "few", 1.5 * w, port="axi")
                 add("axi-" + tag + "-faults-D0-r8", dw, param((8,), reg), 0, "all", 0.6 * w * 3, port="axi")
+    # deep command queue: the memory accepts more write commands than the DMA writer's 16-entry data FIFO holds before it takes the first
+    # data word (many banks queueing behind a refresh), so the writer's FIFO fills up; explicit tuples, default timing
+    cs.append((1.0, "dw32-deepqueue-len20-24", dict(dw=32, D=0, faults="few", cfgs=[[0, 32, 20, 0, 0], [0, 32, 24, 1, 0]], wmin=22, rmin=6, qmax=26), 2_000_000))
     cs.sort(key=lambda x: -x[0])
     return [(n, k, m) for (_, n, k, m) in cs]
 
